@@ -65,6 +65,9 @@ var scenarios = [][]string{
 }
 
 func gen(o *kit.Out, r *kit.Rand, tier string) {
+	// kit.NewRand(seed) for consecutive seeds yields one splitmix stream shifted by one draw;
+	// re-seeding from a mixed output makes VERIF_SEED=1,2,3 explore different cases.
+	r = kit.NewRand(r.U64() ^ 0xC35C35C35C35C35)
 	thorough := tier == "thorough"
 	id := 0
 	nextCase := func(tag string) {
@@ -135,7 +138,7 @@ func gen(o *kit.Out, r *kit.Rand, tier string) {
 		}
 	}
 	// ---- (ii) structured random, mostly valid
-	nRand := 2500
+	nRand := 1500
 	maxN := 5
 	if thorough {
 		nRand = 12000
@@ -146,7 +149,7 @@ func gen(o *kit.Out, r *kit.Rand, tier string) {
 		genRandomCase(o, r.Fork(), maxN, false)
 	}
 	// ---- (iii) malformed stream
-	nBad := 300
+	nBad := 200
 	if thorough {
 		nBad = 1500
 	}
